@@ -303,6 +303,10 @@ def roundDec (n : Nat) (e : Int) : Nat :=
   else if e ≥ 0 then roundNE (n * 10 ^ e.toNat) 1
   else roundNE n (10 ^ (-e).toNat)
 
+/-- The rational `n · 10^e` as a fraction `(num, den)`. -/
+def decFrac (n : Nat) (e : Int) : Nat × Nat :=
+  if e ≥ 0 then (n * 10 ^ e.toNat, 1) else (n, 10 ^ (-e).toNat)
+
 /-- `(mant, sh)` with value `mant · 2^(sh - 1074)` for finite magnitude bits. -/
 def decodeMag (b : Nat) : Nat × Nat :=
   let eb := b / 2 ^ 52 % 2048
